@@ -231,8 +231,7 @@ def rule_handles(ctx):
             ctx.check(sorted(literal_pieces(a[0])) == ["/fd", "/proc/"] and any(s[0] == "field" and s[2] == "process_id" for s in walk(a[0])), R, "source", wb.where(x), "descriptors are listed from /proc/<process_id>/fd", "descriptors listed from %s" % literal_pieces(a[0]))
 
 
-def rule_auxv(ctx):
-    R = "C18/auxv"
+def rule_auxv(ctx, R="C18/auxv"):
     b = ctx.body(R, "linux::auxv::AuxvDumpInfo::try_filling_missing_info")
     if b is None:
         return
@@ -269,6 +268,27 @@ def rule_auxv(ctx):
         v = strip(o._rvalue(st["r"], (bi, si), 0))
         pay = core(dict(v[3])["0"]) if v[0] == "agg" and v[2] == "Some" else ("?",)
         ctx.check(pay[0] == "field" and pay[2] == "value", R, "stores-value", b.where(bi, si), "the stored value is the pair's value", "stored value is %s" % show(pay)[:80])
+    # the whole vector is scanned: the pair loop is left only when the iterator is exhausted (an early `break` once "enough" keys were
+    # seen loses the keys behind it — AT_ENTRY comes last)
+    loops_ = b.loops()
+    pl = [h for h, body in loops_.items() if any(b.term(x)["k"] == "call" and "ProcfsAuxvIter" in ((b.term(x).get("callee") or {}).get("inst") or "") and (CalleeView(b.term(x)["callee"]).short or "").endswith("Iterator::next") for x in body)]
+    if len(pl) != 1:
+        ctx.unproven(R, "scan-loop", b.where(0), "cannot find the loop over the auxv pairs")
+    else:
+        h = pl[0]
+        bad_exit = []
+        for x in loops_[h]:
+            for (s_, lab) in b.succ_edges(x):
+                if lab == ("unwind",) or s_ in loops_[h] or b.term(s_)["k"] == "unreachable":
+                    continue
+                t_ = b.term(x)
+                exhausted = False
+                if t_["k"] == "switch":
+                    a_ = strip(switch_atom(b, o, x)[0])
+                    exhausted = a_[0] == "discr" and strip(a_[1])[0] == "call" and strip(a_[1])[1].split("::")[-1] == "next"
+                if not exhausted:
+                    bad_exit.append(b.where(x))
+        ctx.check(not bad_exit, R, "scans-whole-vector", b.where(h), "the pair loop ends only when the vector is exhausted", "the pair loop can be left before the end of the vector (%s): keys behind that point are never seen" % bad_exit[:2])
     # From<DirectAuxvDumpInfo>: field f <- (f > 0).then_some(f)
     fb = None
     for body in ctx.prog.bodies:
